@@ -935,24 +935,26 @@ fn builtin_write(args: Vec<Rc<Object>>) -> Result<Rc<Object>, String> {
                 }
                 FileHandle::Stdin => Err("cannot write to stdin".to_string()),
                 FileHandle::Stdout => match args[1].as_ref() {
-                    Object::Byte(b) => {
-                        print!("{}", *b as char);
-                        Ok(Rc::new(Object::Integer(1)))
-                    }
+                    Object::Byte(b) => match write!(io::stdout(), "{}", *b as char) {
+                        Ok(_) => Ok(Rc::new(Object::Integer(1))),
+                        Err(e) => Ok(Rc::new(Object::Err(ErrorObj::IO(e)))),
+                    },
                     Object::Arr(arr) => {
                         for obj in arr.elements.borrow().iter() {
                             if let Object::Byte(b) = obj.as_ref() {
-                                print!("{}", *b as char);
+                                if let Err(e) = write!(io::stdout(), "{}", *b as char) {
+                                    return Ok(Rc::new(Object::Err(ErrorObj::IO(e))));
+                                }
                             } else {
                                 return Err(String::from("array should contain only bytes"));
                             }
                         }
                         Ok(Rc::new(Object::Integer(arr.elements.borrow().len() as i64)))
                     }
-                    Object::Str(s) => {
-                        print!("{}", s);
-                        Ok(Rc::new(Object::Integer(s.len() as i64)))
-                    }
+                    Object::Str(s) => match write!(io::stdout(), "{}", s) {
+                        Ok(_) => Ok(Rc::new(Object::Integer(s.len() as i64))),
+                        Err(e) => Ok(Rc::new(Object::Err(ErrorObj::IO(e)))),
+                    },
                     Object::Packet(s) => {
                         let bytes: Vec<u8> = s.as_ref().into();
                         match io::stdout().write_all(&bytes) {
@@ -965,24 +967,26 @@ fn builtin_write(args: Vec<Rc<Object>>) -> Result<Rc<Object>, String> {
                     )),
                 },
                 FileHandle::Stderr => match args[1].as_ref() {
-                    Object::Byte(b) => {
-                        eprint!("{}", *b as char);
-                        Ok(Rc::new(Object::Integer(1)))
-                    }
+                    Object::Byte(b) => match write!(io::stderr(), "{}", *b as char) {
+                        Ok(_) => Ok(Rc::new(Object::Integer(1))),
+                        Err(e) => Ok(Rc::new(Object::Err(ErrorObj::IO(e)))),
+                    },
                     Object::Arr(arr) => {
                         for obj in arr.elements.borrow().iter() {
                             if let Object::Byte(b) = obj.as_ref() {
-                                eprint!("{}", *b as char);
+                                if let Err(e) = write!(io::stderr(), "{}", *b as char) {
+                                    return Ok(Rc::new(Object::Err(ErrorObj::IO(e))));
+                                }
                             } else {
                                 return Err(String::from("array should contain only bytes"));
                             }
                         }
                         Ok(Rc::new(Object::Integer(arr.elements.borrow().len() as i64)))
                     }
-                    Object::Str(s) => {
-                        eprint!("{}", s);
-                        Ok(Rc::new(Object::Integer(s.len() as i64)))
-                    }
+                    Object::Str(s) => match write!(io::stderr(), "{}", s) {
+                        Ok(_) => Ok(Rc::new(Object::Integer(s.len() as i64))),
+                        Err(e) => Ok(Rc::new(Object::Err(ErrorObj::IO(e)))),
+                    },
                     Object::Packet(s) => {
                         let bytes: Vec<u8> = s.as_ref().into();
                         match io::stderr().write_all(&bytes) {
